@@ -52,6 +52,29 @@ pub assume_specification [u128::trailing_zeros] (x: u128) -> (r: u32)
     ensures r == u128_tz(x);
 
 
+/// i64::trailing_zeros in arithmetic form, on the absolute value (two's complement negation keeps the trailing zeros)
+pub uninterp spec fn i64_tz(x: i64) -> u32;
+#[verifier::external_body]
+pub proof fn axiom_i64_tz(x: i64)
+    ensures
+        x == 0 ==> i64_tz(x) == 64,
+        x != 0 ==> i64_tz(x) < 64
+            && (if x < 0 { -(x as int) } else { x as int }) % (vstd::arithmetic::power2::pow2(i64_tz(x) as nat) as int) == 0
+            && ((if x < 0 { -(x as int) } else { x as int }) / (vstd::arithmetic::power2::pow2(i64_tz(x) as nat) as int)) % 2 == 1,
+{}
+pub assume_specification [i64::trailing_zeros] (x: i64) -> (r: u32)
+    ensures r == i64_tz(x);
+
+/// u32::trailing_zeros in arithmetic form (T-std; vstd's own axiom is bit-indexed)
+#[verifier::external_body]
+pub proof fn axiom_u32_tz_arith(x: u32)
+    ensures
+        x == 0 ==> vstd::std_specs::bits::u32_trailing_zeros(x) == 32,
+        x != 0 ==> vstd::std_specs::bits::u32_trailing_zeros(x) < 32
+            && (x as int) % (vstd::arithmetic::power2::pow2(vstd::std_specs::bits::u32_trailing_zeros(x) as nat) as int) == 0
+            && ((x as int) / (vstd::arithmetic::power2::pow2(vstd::std_specs::bits::u32_trailing_zeros(x) as nat) as int)) % 2 == 1,
+{}
+
 /// std::cmp::{max, min} through vstd's `cmp_spec` (for the primitive integers vstd makes cmp_spec the numeric order)
 pub assume_specification<T: core::cmp::Ord + core::marker::Destruct> [std::cmp::max] (a: T, b: T) -> (r: T)
     ensures r == (if vstd::std_specs::cmp::OrdSpec::cmp_spec(&a, &b) == core::cmp::Ordering::Greater { a } else { b });
